@@ -256,7 +256,16 @@ Theorem all_ones_kernel_refuted :
   exists depth co f, (co < depth)%nat /\ channel_mix depth (fun _ _ => 1) f co <> f co.
 Proof. exact all_ones_kernel_refuted_lemma. Qed.
 
+(* ---- convert_conv_groups: a grouped convolution as split / convolutions / concatenation ---- *)
+(* splitting the input channels into groups, convolving each group with its slice of the filters and concatenating
+   the results is the grouped convolution, for every group size, filter count per group, weights, window and channel *)
+Theorem split_convolve_concatenate_is_grouped_convolution :
+  forall icg ocg w x co, (0 < ocg)%nat ->
+    concat_groups ocg (fun g co' => group_conv icg ocg g w x co') co = grouped_mix icg ocg w x co.
+Proof. exact conv_groups_lemma. Qed.
+
 Print Assumptions space_to_batch_conv_batch_to_space_is_dilation.
+Print Assumptions split_convolve_concatenate_is_grouped_convolution.
 Print Assumptions diagonal_kernel_keeps_channels_apart.
 Print Assumptions all_ones_kernel_refuted.
 Print Assumptions pad_twice_is_pad_once.
